@@ -216,7 +216,7 @@ Shape(o, t) ==
       [] t.kind = "tuple" -> o.k = "tup" /\ Len(o.a) = Len(t.items)
                              /\ \A i \in DOMAIN t.items : Shape(o.a[i], t.items[i])
       [] t.kind = "literal" -> IF t.value.properties = <<>> THEN o.k = "any" /\ o.j.k = "obj"
-                               ELSE o.k = "inst" /\ o.cls.kind = "literal"
+                               ELSE o.k = "inst" /\ o.cls.kind = "literal" /\ o.cls = ClsLitOf(t)
       [] t.kind = "stringLiteral" -> o.k = "str" /\ o.s = t.value
       [] t.kind = "and" -> o.k = "inst" /\ o.cls.kind \in {"andParams", "andRegOpts"}
       [] OTHER -> FALSE
